@@ -264,11 +264,12 @@ def run_job(job, ctx):
                 failed.append((p.get('property'), d))
             elif st != 'SUCCESS':
                 res.reason += 'property %s status %s; ' % (p.get('property'), st)
-    if res.reason:
-        return res
     if failed:
         res.status = 'violation'
         res.failed = failed
+        res.reason = ''
+        return res
+    if res.reason:
         return res
     for wre in job.witnesses:
         if not any(re.search(wre, d) for d in wfailed):
